@@ -28,6 +28,9 @@ func init() {
 		ruleP12(c, "C13.P12")
 		ruleKind(c, "C13.P7")
 		ruleP8(c, "C13.P8")
+		// no name twice: the name cache that decides whether a name exists holds every name (a partial cache lets
+		// CREATE add a second slot for an existing name - the enumeration then returns the name twice)
+		ruleW2(c, "C13.P13")
 	}
 }
 
